@@ -58,6 +58,7 @@ impl Prop for C16 {
             reopen: 2,
             rebuild: 3,
             extra: 3,
+            pressure: 0,
         };
         (history(w, EvCfg::default(), tier.pick(30, 120)), 0u8..3, any::<bool>())
             .prop_map(|(mut ops, n_extra, end_rebuild)| {
